@@ -469,7 +469,7 @@ class StmtMixin:
             s2 = r.st.copy(); s2.assume(z3.Not(t))
             self.narrow(s1, s.test, True); self.narrow(s2, s.test, False)
             f1, f2 = self.feasible(s1), self.feasible(s2)
-            if not self.spec_depth and self.depth == 0:
+            if not self.spec_depth and self.depth == 0 and not isinstance(s.test, ast.Constant):      # (a literal test is constant on purpose)
                 b = self.branch_cov.setdefault(s.lineno, [False, False])      # which sides of this test were ever feasible
                 b[0] = b[0] or f1; b[1] = b[1] or f2
             if f1: out += self.block(s1, s.body)
